@@ -2,13 +2,14 @@
 """keep_seed.py <ID> <mutdir> <i> <pkg> <needs> <detected_by>  — store a confirmed seeded change under /verif/seeded/<ID>-<i>/"""
 import json, os, shutil, sys
 pid, m, i, pkg, needs, det = sys.argv[1:7]
-src = f"{m}/out/{i}"; d = f"/verif/seeded/{pid}-{i}"
+num = sys.argv[7] if len(sys.argv) > 7 else i
+src = f"{m}/out/{i}"; d = f"/verif/seeded/{pid}-{num}"
 os.makedirs(d, exist_ok=True)
 for f in ("patch.diff", "demo_test.go", "README.md"):
     shutil.copy(f"{src}/{f}", f"{d}/{f}")
-json.dump({"id": f"{pid}-{i}", "property": pid, "needs_to_manifest": needs,
+json.dump({"id": f"{pid}-{num}", "property": pid, "needs_to_manifest": needs,
            "demo": f"copy demo_test.go to {pkg}/zz_demo_test.go in a worktree with patch.diff applied; go test -mod=mod -vet=off -count=1 ./{pkg}/",
            "confirmed": "tools/../confirm_seed.sh in a scratch worktree of /repo: builds, full suite passes with the change, demo fails with it and passes without it",
-           "ran": f"seedtest.sh {pid} seeded/{pid}-{i}/patch.diff (check run against a scratch worktree of /repo HEAD with the patch applied)",
+           "ran": f"seedtest.sh {pid} seeded/{pid}-{num}/patch.diff (check run against a scratch worktree of /repo HEAD with the patch applied)",
            "detected_by": det}, open(f"{d}/meta.json", "w"), indent=1)
 print("kept", d)
